@@ -279,3 +279,49 @@ func VerifC18_V2BackupModes() {
 		verif.Assert(verif.Eq(gotHmac, wantHmac), "target-hmac-key-identical")
 	}
 }
+
+// VerifC18_V2BackupAfterDestroy: a key ring in which a rotated key was destroyed is a legitimate history too: exporting
+// all keys and importing them elsewhere succeeds, offers exactly the surviving keys in the same order, and a failed
+// import leaves no half-made ring behind.
+func VerifC18_V2BackupAfterDestroy() {
+	suite := verifSuite()
+	be := backend.NewInMemory()
+	s := verifServer(be, suite)
+	id := []byte("a")
+	for i := 0; i < 3; i++ {
+		verif.Assert(s.GenerateClientIDSymmetricKey(id) == nil, "generate")
+	}
+	verif.Assert(s.DestroyRotatedClientIDSymmetricKey(id, 2) == nil, "destroy-oldest")
+	want, err := s.GetClientIDSymmetricKeys(id)
+	verif.Assert(err == nil && len(want) == 2, "source-keys")
+	if err != nil || len(want) != 2 {
+		return
+	}
+	bk, _ := NewKeyBackuper("", "", s)
+	backup, err := bk.Export(nil, keystoreV1.ExportAllKeys)
+	verif.Reach("exported")
+	verif.Assert(err == nil, "export-no-error")
+	if err != nil {
+		return
+	}
+	suite2, err := crypto.NewSCellSuite(verif.Bytes("master2-enc", 32), verif.Bytes("master2-sig", 32))
+	if err != nil {
+		return
+	}
+	be2 := backend.NewInMemory()
+	t := verifServer(be2, suite2)
+	bk2, _ := NewKeyBackuper("", "", t)
+	_, err = bk2.Import(backup)
+	verif.Reach("import-returned")
+	t = verifServer(be2, suite2)
+	got, gerr := t.GetClientIDSymmetricKeys(id)
+	if err != nil {
+		// a refused import must not leave anything behind
+		verif.Assert(gerr != nil || len(got) == 0, "refused-import-leaves-target-unchanged")
+		rings, lerr := t.ListKeyRings()
+		verif.Assert(lerr == nil && len(rings) == 0, "refused-import-leaves-no-ring-behind")
+		verif.Assert(false, "import-of-a-ring-with-a-destroyed-key-succeeds")
+		return
+	}
+	verif.Assert(gerr == nil && len(got) == 2 && verif.Eq(got[0], want[0]) && verif.Eq(got[1], want[1]), "surviving-keys-identical-and-ordered")
+}
